@@ -42,10 +42,10 @@ SHARD_TIMEOUT = {'quick': 900, 'thorough': 3400}
 MIN_HITS = {
     'quick': {**{f'rounds:{s}': 16 for s in SYSTEMS}, **{f'cont:{s}': 12 for s in SYSTEMS},
               **{f'hidden:{s}': 6 for s in SYSTEMS}, 'mon:determinism': 400, 'mon:purity': 600, 'mon:serial': 700,
-              'mon:hidden': 100, 'mon:aggkey': 50, 'repeat-participation': 120, 'xproc': 6, 'xproc:agg_rotated': 1, 'history-without-jit': 4, 'nojit:apfl': 1, 'big-leaf-arithmetic': 1, 'hit:apfl-round-raised': 3, 'hit:apfl-big-table': 3, 'aggregator-object-used-before': 8},
+              'mon:hidden': 100, 'mon:aggkey': 50, 'repeat-participation': 120, 'xproc': 6, 'xproc:agg_rotated': 1, 'history-without-jit': 4, 'hit:apply-inside-other-backend-context': 120, 'hit:state-object-edited-in-place': 120, 'algorithm-built-on-pmap': 8, 'nojit:apfl': 1, 'big-leaf-arithmetic': 1, 'hit:apfl-round-raised': 3, 'hit:apfl-big-table': 3, 'aggregator-object-used-before': 8},
     'thorough': {**{f'rounds:{s}': 250 for s in SYSTEMS}, **{f'cont:{s}': 300 for s in SYSTEMS},
                  **{f'hidden:{s}': 150 for s in SYSTEMS}, 'mon:determinism': 6000, 'mon:purity': 9000, 'mon:serial': 10000,
-                 'mon:hidden': 1800, 'mon:aggkey': 800, 'repeat-participation': 2000, 'xproc': 30, 'xproc:agg_rotated': 3, 'history-without-jit': 8, 'nojit:apfl': 2, 'big-leaf-arithmetic': 3},
+                 'mon:hidden': 1800, 'mon:aggkey': 800, 'repeat-participation': 2000, 'xproc': 30, 'xproc:agg_rotated': 3, 'history-without-jit': 8, 'hit:apply-inside-other-backend-context': 1800, 'hit:state-object-edited-in-place': 1800, 'algorithm-built-on-pmap': 120, 'nojit:apfl': 2, 'big-leaf-arithmetic': 3},
 }
 EXHAUSTIVE = {'quick': False, 'thorough': False}
 TECHNIQUE = ('runtime monitoring: state sanitizer (deep container + leaf snapshots, deleted-buffer detection) + '
@@ -171,11 +171,15 @@ class AlgoSystem:
   def __init__(self, cfg):
     self.cfg = cfg
     self.name = cfg['name']
-    self.kw = {k: v for k, v in cfg.items() if k not in ('name', 'system')}
+    self.kw = {k: v for k, v in cfg.items() if k not in ('name', 'system', 'backend')}
 
   def build(self, fresh_module=False):
+    import contextlib
+    import fedjax
     mod = algos.fresh_module(self.name) if fresh_module else None
-    b = algos.build(self.name, module=mod, **self.kw)
+    # cfg['backend'] == 'pmap': the algorithm is BUILT while the pmap for_each_client backend is selected (and applied outside)
+    with (fedjax.for_each_client_backend('pmap') if self.cfg.get('backend') == 'pmap' else contextlib.nullcontext()):
+      b = algos.build(self.name, module=mod, **self.kw)
     return b, (lambda state, inputs: b.algo.apply(state, inputs))
 
   def init(self, built, params):
@@ -304,7 +308,10 @@ def gen_case(rng, system, quick):
     if rng.rand() < 0.5:
       rng.shuffle(c)
     cohorts.append([int(i) for i in c])
-  return dict(cfg=cfg, dim=dim, sizes=sizes, rounds=rounds, cohorts=cohorts, init_seed=int(rng.randint(0, 2**31 - 1)))
+  init_seed = int(rng.randint(0, 2**31 - 1))
+  if not is_agg:
+    cfg['backend'] = 'pmap' if init_seed % 3 == 0 else 'default'
+  return dict(cfg=cfg, dim=dim, sizes=sizes, rounds=rounds, cohorts=cohorts, init_seed=init_seed)
 
 
 
@@ -401,6 +408,8 @@ def run_history(ctx, jax, fedjax, case, tmpdir):
   if not r.ok:
     return done(False)
   built, apply = r.value
+  if cfg.get('backend') == 'pmap':
+    ctx.count('algorithm-built-on-pmap')
   if is_agg and sname != 'agg_mean' and case['init_seed'] % 2:
     # the aggregator OBJECT has been used before, on another model and once on a round without clients (an aggregator is a pair
     # of functions of (clients, state): nothing about earlier calls may stick to the object) -- the history below is compared
@@ -498,6 +507,45 @@ def run_history(ctx, jax, fedjax, case, tmpdir):
     ctx.check(d is None, f'determinism/{sname}-{"aggregate" if is_agg else "diagnostics"}-differs',
               f'round {rnd}: two apply calls with the same arguments returned different '
               f'{"aggregated params" if is_agg else "diagnostics"} at {d and d[0]}', {**w, 'where': d})
+    if not is_agg:
+      # (2b) the same call made while ANOTHER for_each_client backend is selected in this thread: the algorithm object was built
+      #      before, its round is a function of (state, clients), not of what is selected around the call
+      amb = 'debug' if case.get('nojit') else ['debug', 'pmap'][(rnd + case['init_seed']) % 2]
+      with fedjax.for_each_client_backend(amb):
+        r3 = guarded(entry + f'[inside for_each_client_backend({amb})]', apply, state, inputs, w=w)
+      if r3.ok:
+        ctx.count('hit:apply-inside-other-backend-context')
+        d = first(diff_values(r1.value, r3.value))
+        ctx.check(d is None, f'hidden/{sname}-depends-on-backend-selected-around-apply',
+                  f'round {rnd}: apply of an already built algorithm gives different outputs at {d and d[0]} when called inside '
+                  f'`with for_each_client_backend({amb!r})`', {**w, 'where': d, 'ambient_backend': amb})
+      # (2c) the caller edits ITS state object's parameter container in place and runs the round on that object: same outputs as
+      #      on an equal-valued state made of fresh containers (a round depends on the VALUE of the state, not on whether this
+      #      object was passed in before)
+      pc = getattr(state, 'params', None)
+      if not isinstance(pc, dict):
+        cps = getattr(state, 'cluster_params', None)
+        pc = cps[0] if isinstance(cps, (list, tuple)) and cps and isinstance(cps[0], dict) else None
+      if pc:
+        k0 = sorted(pc)[0]
+        old_sub = pc[k0]
+        try:
+          pc[k0] = jax.tree_util.tree_map(lambda l: l + 1, old_sub)
+          equal = jax.tree_util.tree_map(lambda l: l, state)
+          ro = guarded(entry + '[state object edited in place]', apply, state, inputs, w=w)
+          re_ = guarded(entry + '[equal-valued fresh state]', apply, equal, inputs, w=w)
+          # (compared BEFORE the edit is undone: an output may legitimately share an untouched container with its input)
+          d = first(diff_values(re_.value, ro.value)) if ro.ok and re_.ok else None
+        finally:
+          pc[k0] = old_sub
+        if ro.ok and re_.ok:
+          ctx.count('hit:state-object-edited-in-place')
+          ctx.check(d is None, f'hidden/{sname}-remembers-state-object-seen-before',
+                    f'round {rnd}: after the caller changed entry {k0!r} of its state\'s parameter container in place, apply on '
+                    f'that object differs at {d and d[0]} from apply on an equal-valued state built of fresh containers',
+                    {**w, 'where': d, 'edited_entry': k0, 'built_on_backend': cfg.get('backend')})
+      else:
+        ctx.count('state-without-dict-params')
     # (3) branches continued from the restored copies of this round's input state
     for how, rs in restored.items():
       rs_snap = take(rs)
@@ -551,6 +599,10 @@ def run_history(ctx, jax, fedjax, case, tmpdir):
     st, inputs, clients, out = last
     w = {**wit, 'round': rounds_done - 1}
     for how, fm in (('instance', False), ('module', True)):
+      if fm and sname == 'apfl' and cfg.get('backend') == 'pmap':
+        # (harness limit: a re-loaded module has its own ClientState class; the pmap backend maps over per-client inputs of the
+        #  OLD class next to outputs of the new one, which jax rejects as two different node types)
+        continue
       rb = guarded(f'{sname}.build[fresh-{how}]', system.build, fm, w=w)
       if not rb.ok:
         continue
@@ -659,7 +711,8 @@ def run(ctx):
       ctx.count('history-without-jit')
       ctx.count(f'nojit:{system}')
       with jax.disable_jit():
-        run_history(ctx, jax, fedjax, dict(case, nojit=True), tmpdir)
+        # (built on the default backend and without the ambient-backend leg: pmap under disable_jit is not a configuration)
+        run_history(ctx, jax, fedjax, dict(case, nojit=True, cfg=dict(case['cfg'], backend='default')), tmpdir)
       continue
     run_history(ctx, jax, fedjax, case, tmpdir)
   for cid, rng in ctx.cases('apfl-special', 8 if ctx.quick else 48):
@@ -681,3 +734,5 @@ if __name__ == '__main__':
     pickle.dump(_out, _f)
 
 TECHNIQUE += '; histories under jax.disable_jit; APFL failed-round and 2e4-5e4-client-table probes'
+TECHNIQUE += "; apply inside another for_each_client_backend context; algorithms built on the pmap backend; the caller's state object edited in place vs an equal-valued fresh state"
+RULE += " Wave-8 addition: a third of the algorithm histories are built while the pmap backend is selected; every round is also applied inside `with for_each_client_backend('debug'|'pmap')` (bit-identical outputs required) and, after an in-place edit of the caller's own parameter container, on that object and on an equal-valued state of fresh containers (identical outputs required)."
